@@ -37,6 +37,8 @@ def o_split_bars(inp):
     from scoda.sequences.sequence import Sequence
     tracks = [[tuple(m) for m in t] for t in inp["tracks"]]
     requant = inp["requant"]
+    if not tracks:
+        return [("~skip:no-sequences", "")]
     states = inp.get("states") or ["rel"] * len(tracks)
     seqs = [P.seq_in_state(t, st) for t, st in zip(tracks, states)]
     try:
